@@ -261,3 +261,37 @@ func TestVerifScenario_C12_same_block_gauges_collide(t *testing.T) {
 }
 
 var _ = jkltypes.Bech32Prefix
+
+// C01: a submission whose proof does not verify must change nothing: the sender must not become a listed prover,
+// and must not be paid at the next reward block.
+func TestVerifScenario_C01_rejected_proof_registers_prover(t *testing.T) {
+	k, l, ctx := sSetup(t)
+	cw := k.GetParams(ctx).CheckWindow
+	ctx = ctx.WithBlockHeight(cw - 1) // the block before a reward block
+	owner, honest, cheat := sAddr(1), sAddr(2), sAddr(3)
+	f := types.UnifiedFile{Merkle: []byte("merkle-root-of-a-file-nobody-gave-the-cheat"), Owner: owner.String(), Start: cw - 5, Expires: 0, FileSize: 5000, ProofInterval: 100, MaxProofs: 3, Note: "{}"}
+	k.SetFile(ctx, f)
+	for _, p := range []sdk.AccAddress{honest, cheat} {
+		k.SetProviders(ctx, types.Providers{Address: p.String(), Ip: "https://p.example.com", Totalspace: "1000000", BurnedContracts: "0", Creator: p.String()})
+	}
+	srv := keeper.NewMsgServerImpl(*k)
+	res, err := srv.PostProof(sdk.WrapSDKContext(ctx), &types.MsgPostProof{Creator: cheat.String(), Item: []byte("garbage"), HashList: []byte("not a proof"), Merkle: f.Merkle, Owner: f.Owner, Start: f.Start, ToProve: 0})
+	if err != nil || res.Success {
+		fmt.Printf("SCENARIO-ERROR the garbage proof was expected to be rejected through the response: err=%v res=%v\n", err, res)
+		return
+	}
+	after, _ := k.GetFile(ctx, f.Merkle, f.Owner, f.Start)
+	_, hasRecord := k.GetProof(ctx, cheat.String(), f.Merkle, f.Owner, f.Start)
+	// the reward block one block later (the file is still young, so every listed prover is credited)
+	coins := sdk.NewCoins(sdk.NewInt64Coin("ujkl", 6000))
+	g := k.NewGauge(ctx.WithBlockTime(ctx.BlockTime().Add(-time.Hour)), coins, ctx.BlockTime().Add(time.Hour))
+	acc, _ := types.GetGaugeAccount(g)
+	l.bal[acc.String()] = coins
+	k.RunRewardBlock(ctx.WithBlockHeight(cw))
+	paid := l.get(cheat).AmountOf("ujkl").Int64()
+	if len(after.Proofs) != 0 || hasRecord || paid != 0 {
+		fmt.Printf("SCENARIO-VIOLATION PostProof answered Success=false (%q) yet the sender is listed on the file (provers=%d), has a proof record (%v) and was paid %dujkl at the next reward block\n", res.ErrorMessage, len(after.Proofs), hasRecord, paid)
+		return
+	}
+	fmt.Println("SCENARIO-OK a rejected submission left the file, the proof table and the balances alone")
+}
